@@ -1,5 +1,5 @@
 """C01 — every scan cycle ends in success or a value-dependent fault, never a crash."""
-from checks.stcore_common import COMMON_TRUSTED, make_extra, translate_faults
+from checks.stcore_common import COMMON_TRUSTED, make_extra, make_replay, translate_faults
 
 SPEC = {
     "id": "C01",
@@ -22,6 +22,7 @@ SPEC = {
 }
 
 extra = make_extra("C01")
+replay = make_replay("C01")
 
 MANIFEST = {
     "technique": 'Lean 4 proofs about an executable model of the ST interpreter (progress under a decidable guard, unconditional frame balance incl. FUNCTION calls, counterexamples to the full statement) + differential correspondence (verdict, outcome, frames, tagged store) against the real compiler/runtime + oracle on the implementation with recorded findings',
